@@ -64,7 +64,9 @@ func (m *Model) CrossCheck() {
 				if famOf(pip) != ma.Fam {
 					m.Rec.Violate("snap-family", "perm", "allocation %s (family %d) holds a permission for %s", s.Src, ma.Fam, ip)
 				}
-				if m.Denied(ma.C, pip) {
+				// (a host the handler started to refuse later keeps what it was granted before, until
+				// that expires: the model knows it as live)
+				if m.Denied(ma.C, pip) && pst == Dead {
 					m.Rec.Violate("snap-denied", "perm", "allocation %s holds a permission for refused peer %s", s.Src, ip)
 				}
 				if pst == Dead {
@@ -99,7 +101,7 @@ func (m *Model) CrossCheck() {
 					if famOf(ua.IP) != ma.Fam {
 						m.Rec.Violate("snap-family", "chan", "allocation %s (family %d) holds a channel to %s", s.Src, ma.Fam, ch.Peer)
 					}
-					if m.Denied(ma.C, ua.IP) {
+					if m.Denied(ma.C, ua.IP) && cst == Dead {
 						m.Rec.Violate("snap-denied", "chan", "allocation %s holds a channel to refused peer %s", s.Src, ch.Peer)
 					}
 				}
